@@ -77,8 +77,9 @@ void lp_polynomial_heap_extend(lp_polynomial_heap_t *heap) {
 }
 
 static
-void lp_polynomial_heap_heapify_up(lp_polynomial_heap_t *heap) {
-  for (size_t pos = heap->size;
+void lp_polynomial_heap_heapify_up(lp_polynomial_heap_t *heap, size_t pos) {
+  // we're using a 1-based index to enable heap index calculation
+  for (++ pos;
        pos > 1 && HEAP_CMP(heap, pos / 2, pos) < 0;
        pos /= 2) {
     // if data[pos] is smaller or equal than data[parent] swap
@@ -116,7 +117,7 @@ void lp_polynomial_heap_insert(lp_polynomial_heap_t* heap, lp_polynomial_t* p) {
     lp_polynomial_heap_extend(heap);
   }
   heap->data[heap->size - 1] = p;
-  lp_polynomial_heap_heapify_up(heap);
+  lp_polynomial_heap_heapify_up(heap, heap->size - 1);
 }
 
 void lp_polynomial_heap_push(lp_polynomial_heap_t* heap, const lp_polynomial_t* p) {
@@ -154,11 +155,21 @@ lp_polynomial_t* lp_polynomial_heap_pop(lp_polynomial_heap_t* heap) {
 
 int lp_polynomial_heap_remove(lp_polynomial_heap_t* heap, const lp_polynomial_t *p){
   int result = 0;
-  for (size_t i = 0; i < heap->size; ++i) {
+  for (size_t i = 0; i < heap->size;) {
     if (lp_polynomial_eq(p, heap->data[i])) {
+      // the heap owns its elements
+      lp_polynomial_delete(heap->data[i]);
       heap->data[i] = heap->data[--heap->size];
-      lp_polynomial_heap_heapify_down(heap, i);
+      if (i < heap->size) {
+        // the replacement may have to move in either direction
+        lp_polynomial_heap_heapify_up(heap, i);
+        lp_polynomial_heap_heapify_down(heap, i);
+      }
       result++;
+      // positions have changed, scan again
+      i = 0;
+    } else {
+      ++i;
     }
   }
   return result;
